@@ -239,7 +239,8 @@ def decide(check, crate, oid, setup, post, replay=None, rb=None, unwind=8, enums
                 c["reproduced"] = None
                 continue
             try:
-                okr, text = replay(c["inputs"], rb)
+                # a replay that depends on WHICH post-condition failed declares `wants_label`
+                okr, text = replay(c["inputs"], rb, c["label"]) if getattr(replay, "wants_label", False) else replay(c["inputs"], rb)
                 check.replays += 1
             except Exception as e:  # noqa
                 okr, text = False, "replay error: %r" % (e,)
